@@ -30,6 +30,24 @@ func RunW1(p *Profile, plan, sched *simrt.Source, trace bool) *RunOut {
 	if g.Pct(75) && ncalls < p.MinCalls {
 		ncalls = p.MinCalls
 	}
+	if g.Pct(p.LongHistPct) {
+		// a long life of one engine: one entry point over and over, most calls with failing rules
+		// (whatever a call leaks or leaves behind per failure adds up)
+		pp := *p
+		pp.Methods = []int{g.PickInt(p.Methods)}
+		pp.FaultPct = 90
+		pp.GatePct = 0
+		// the endless-loop faults each cost a loop budget's worth of steps: not a hundred of them in one run
+		fk := map[int]bool{-1: true}
+		for k := 0; k < numSecKinds; k++ {
+			if FaultCapable(k) && k != SecUnb && k != SecUnbCont && (p.FaultKinds == nil || p.FaultKinds[k]) {
+				fk[k] = true
+			}
+		}
+		pp.FaultKinds = fk
+		p = &pp
+		ncalls = g.Range(70, 140)
+	}
 	// optionally the rule set evolves between calls: extra rules (not part of the initial text) may be
 	// added, saliences changed and rules removed through the builder's incremental operations
 	evolve := g.Pct(p.EvolvePct)
